@@ -184,7 +184,7 @@ def expr_dir_b(v, pid, tier, entries, what, families=("mixed", "nested")):
     """Direction B: seeded random tables and big expressions, every record judged by TLC from its text."""
     nstreams = 8 if tier == "quick" else 16
     per = {"mixed": 24 if tier == "quick" else 150, "nested": 6 if tier == "quick" else 40, "calls": 700 if tier == "quick" else 12000,
-           "chain": 20 if tier == "quick" else 240, "soup": 1500 if tier == "quick" else 20000, "mutant": 1500 if tier == "quick" else 20000}
+           "chain": 20 if tier == "quick" else 40, "soup": 1500 if tier == "quick" else 20000, "mutant": 1500 if tier == "quick" else 20000}
     hi = 140 if tier == "quick" else 300
     jobs = []
     for fam in families:
@@ -302,7 +302,7 @@ def file_verdicts(v, obs_path, verdicts, what, kind="text", classes=None):
 
 
 LEX_FAMILIES = [("TLog", "ALog", 5, 6), ("TCmp", "ACmp", 6, 7), ("TSin", "ASin", 4, 5), ("TBrace", "ABrace", 5, 6),
-                ("TCall", "ACall", 5, 7), ("TPre", "APre", 5, 6)]
+                ("TCall", "ACall", 5, 6), ("TPre", "APre", 5, 6)]
 
 
 def lex_enumeration(v, pid, tier, families, what):
